@@ -578,10 +578,16 @@ Fixpoint parse_digits (s : str) (acc : Z) : option Z :=
 Definition parse_int_c (s : str) : option Z :=
   match strip s with
   | [] => None
-  | 45 :: [] => None | 43 :: [] => None
-  | 45 :: d => match parse_digits d 0 with Some n => Some (- n) | None => None end
-  | 43 :: d => parse_digits d 0
-  | d => parse_digits d 0
+  | c :: d =>
+      if (c =? 45) || (c =? 43)
+      then match d with
+           | [] => None
+           | _ => match parse_digits d 0 with
+                  | Some n => Some (if c =? 45 then - n else n)
+                  | None => None
+                  end
+           end
+      else parse_digits (c :: d) 0
   end.
 Definition dec_signed (v : Z) : str := if v <? 0 then 45 :: dec (- v) else dec v.
 (* coordinates of the executable instance are integers written in decimal *)
